@@ -24,8 +24,10 @@ Does NOT require (deliberately unchecked, because the docs are silent or allow i
     character follows, whether `~` after `=` / `:` is expanded, whether substitution of an
     f-string happens before or after field formatting: every documented-or-plausible reading is
     accepted (the reference returns a SET of allowed values);
-  * the value of an empty macro (`cmd!` with nothing after it) or macro text containing the
-    closing bracket of an enclosing $( );
+  * macro text the lexical rules legitimately take away from the line: an empty macro (`cmd!`),
+    text ending in a backslash (backslash-newline continues the line), text with unbalanced
+    ( ) [ ] { } or an open triple quote (the grammar ends a macro at a closer / continues the
+    logical line), text containing a newline;
   * anything about @$( ), aliases' return codes, stdout, or the redirect target's content.
 """
 
@@ -64,13 +66,14 @@ ENV_V = "a* v"  # value of $V
 SUFFIX = "/a"  # literal suffix of the glue forms ( `*`+`/a` matches d/a, `~`+`/a` is a home path )
 PREFIX = "a"  # literal prefix of the glue forms ( `a`+`*` matches a a1 a2 ad )
 
-LITERAL_FORMS = ("sq", "dq", "tsq", "tdq", "f", "ffield", "fval")
 FORMS = (
     "plain", "sq", "dq", "raw", "f", "ffield", "fval", "tsq", "tdq",
     "at", "atlist", "atgen", "gluepre", "gluesuf", "glueboth", "gluelist",
     "macro", "macroarg", "macrotail",
 )  # fmt: skip
 MACRO_FORMS = ("macro", "macroarg", "macrotail")
+# sub-forms that are one syntactic form of the statement share the <form> part of the key
+FAMILY = {"gluepre": "glue", "gluesuf": "glue", "glueboth": "glue", "gluelist": "glue", "macroarg": "macro", "macrotail": "macro", "tsq": "triple", "tdq": "triple", "ffield": "f", "fval": "f"}
 POSITIONS = ("mid", "first", "last", "redir", "capt")
 PATHS = ("t", "u", "c")
 CMD = {"t": "rect", "u": "recu", "c": "recc"}
@@ -133,9 +136,12 @@ def _esc(v, quote, braces=False, keep_newline=False):
     return "".join(out)
 
 
+FIXED = " b c "  # the other element of the list forms: blanks inside and at both ends
+
+
 def partner(v):
-    """Second element of the list forms."""
-    return v[::-1]
+    """The other element of the list forms (fixed, so that a failure depends on v alone)."""
+    return FIXED
 
 
 def _raw_literal(v):
@@ -189,7 +195,7 @@ def render_arg(form, v, pos="mid"):
     if form == "atlist":
         return "@([" + repr(v) + ", " + repr(partner(v)) + "])"
     if form == "atgen":
-        return "@(q for q in [" + repr(v) + ", " + repr(partner(v)) + "])"
+        return "@(q for q in [" + repr(partner(v)) + ", " + repr(v) + "])"
     if form == "gluepre":
         return PREFIX + "@(" + repr(v) + ")"
     if form == "gluesuf":
@@ -210,14 +216,27 @@ def field_value(form, v):
     return None
 
 
+def _balanced(v):
+    """Brackets properly nested (the grammar's `nocloser` rule ends macro text at a closer)."""
+    stack = []
+    pairs = {")": "(", "]": "[", "}": "{"}
+    for ch in v:
+        if ch in "([{":
+            stack.append(ch)
+        elif ch in pairs:
+            if not stack or stack.pop() != pairs[ch]:
+                return False
+    return not stack
+
+
 def render_line(form, pos, v, cmd):
     """(source line, python-self-check literal or None) or None if the combination is skipped."""
     if form in MACRO_FORMS:
         if "\n" in v or not v.strip(" \t"):
             return None  # a macro is one line; the empty macro is not specified
+        if v.endswith("\\") or not _balanced(v) or "'''" in v or '"""' in v:
+            return None  # backslash-newline / an open triple quote continue the line; closers end a macro by grammar
         if pos == "capt":
-            if any(ch in v for ch in "()[]"):
-                return None  # where the macro text ends inside $( ) is not specified for closers
             inner = {"macro": f"{cmd}! {v}", "macroarg": f"{cmd} L ! {v}", "macrotail": f"{cmd} L ! {v} > out.txt"}[form]
             return f"y = $({inner})\n"
         if pos != "mid":
@@ -375,8 +394,10 @@ def expected_args(form, v, expand_env, env, home):
         return [{v} | ex(v)]
     if form in ("raw", "at"):
         return [{v}]
-    if form in ("atlist", "atgen"):
+    if form == "atlist":
         return [{v}, {partner(v)}]
+    if form == "atgen":
+        return [{partner(v)}, {v}]
     if form == "gluepre":
         return [{PREFIX + v}]
     if form == "gluesuf":
@@ -421,7 +442,22 @@ def signature(obs, exp):
 
 
 def exp_json(exp):
-    return [sorted(e) for e in exp]
+    return _scrub([sorted(e) for e in exp])
+
+
+def _scrub(x):
+    """Replace the per-process scratch $HOME by <HOME> in reported values (artefacts and evidence
+    must not depend on pids); comparison always happens on the real values."""
+    home = _W.get("home")
+    if home is None:
+        return x
+    if isinstance(x, str):
+        return x.replace(home, "<HOME>")
+    if isinstance(x, (list, tuple)):
+        return [_scrub(i) for i in x]
+    if isinstance(x, dict):
+        return {k: _scrub(v) for k, v in x.items()}
+    return x
 
 
 # ---------------------------------------------------------------- implementation side (worker)
@@ -451,7 +487,6 @@ def _rec_u(args, stdin=None):
 def _init_worker():
     from xonsh.tools import unthreadable
 
-    tables.ensure_tables()
     d = os.path.realpath(common.scratch_dir("c04"))
     cwd = os.path.join(d, "cwd")
     home = os.path.join(d, "ho me")  # a blank in $HOME: re-splitting after ~ expansion shows
@@ -538,22 +573,30 @@ _PLAN = None  # set by run(): function value -> list of (form, pos, e1, paths)
 
 
 def _plan_for(v, thorough):
-    """Which (form, position, $EXPAND_ENV_VARS, delivery paths) are executed for value v."""
-    short = len(v) <= 2 or v in _PROBE_SET
+    """Which (form, position, $EXPAND_ENV_VARS, delivery paths) are executed for value v.  A case
+    that fails on the paths listed here is re-run on the remaining paths (see _check_value), so
+    every reported failure carries the observation of all three delivery paths."""
+    tiny = len(v) <= 1 or v in _PROBE_SET
+    short = tiny or len(v) <= 2
     plan = []
     for form in FORMS:
         # base sweep: every value, middle position, default configuration
-        plan.append((form, "mid", True, PATHS if short else ("t", "u")))
-        if short:
-            # $EXPAND_ENV_VARS = False (where expansion is part of the expectation, and for the
-            # injection forms, which must be unaffected by it)
-            if form not in MACRO_FORMS:
+        plan.append((form, "mid", True, PATHS if (tiny or (thorough and short)) else ("u",)))
+        # $EXPAND_ENV_VARS = False: expansion forms must stop expanding `$`, nothing else may change
+        if form not in MACRO_FORMS:
+            if tiny and thorough:
                 plan.append((form, "mid", False, PATHS))
+            elif tiny or (thorough and short) or "$" in v or "~" in v:
+                plan.append((form, "mid", False, ("u",)))
+        # positions (redirect / capture change the plumbing around the command, so the delivery
+        # path matters there; first / last only move the argument)
+        if tiny or (thorough and short):
             for pos in POSITIONS[1:]:
-                tiny = len(v) <= 1 or v in _PROBE_SET
-                plan.append((form, pos, True, PATHS if (tiny or thorough) else ("u",)))
-        elif thorough and form not in MACRO_FORMS and ("$" in v or "~" in v):
-            plan.append((form, "mid", False, ("t", "u")))
+                if thorough:
+                    paths = PATHS if tiny else ("u",)
+                else:
+                    paths = PATHS if (len(v) <= 1 and pos in ("redir", "capt")) else ("u",)
+                plan.append((form, pos, True, paths))
     return plan
 
 
@@ -564,6 +607,8 @@ _THOROUGH = False
 def _check_value(v):
     fails = []
     evals = cases = 0
+    by_path = dict.fromkeys(PATHS, 0)
+    by_kind = {"mid": 0, "E0": 0, "pos": 0}
     for form, pos, e1, paths in _plan_for(v, _THOROUGH):
         if pos == "mid" and e1:
             self_check(form, v)
@@ -571,54 +616,61 @@ def _check_value(v):
         if r is None:
             continue
         cases += 1
-        evals += len(paths)
+        by_kind["E0" if not e1 else ("mid" if pos == "mid" else "pos")] += 1
         exp = r["exp"]
+        if len(paths) < len(PATHS) and any(not matches(o, exp) for o in r["obs"].values()):
+            rest = tuple(p for p in PATHS if p not in paths)
+            r["obs"].update(run_case(form, pos, e1, v, rest)["obs"])
+        evals += len(r["obs"])
+        for p in r["obs"]:
+            by_path[p] += 1
         ran = sorted(r["obs"])
         bad = {p: signature(o, exp) for p, o in r["obs"].items() if not matches(o, exp)}
         if not bad and any(r["obs"][p] != r["obs"][ran[0]] for p in ran[1:]):
             bad = {p: "paths-differ" for p in ran}  # each allowed on its own, but the paths disagree
-        for p, sig in bad.items():
-            fails.append({"form": form, "pos": pos, "e1": e1, "v": v, "path": p, "sig": sig, "obs": r["obs"], "exp": exp_json(exp), "src": r["src"], "ran": ran})
-    return {"fails": fails, "evals": evals, "cases": cases}
+        if bad:
+            fails.append({"form": form, "pos": pos, "e1": e1, "v": v, "bad": bad, "obs": _scrub(r["obs"]), "exp": exp_json(exp), "src": r["src"], "ran": ran})
+    return {"fails": fails, "evals": evals, "cases": cases, "by_path": by_path, "by_kind": by_kind}
 
 
 # ---------------------------------------------------------------- attribution (narrow keys)
 
 
-def _deletions(v):
-    for i in range(len(v)):
-        yield v[:i] + v[i + 1 :]
-
-
 def attribute(fails):
-    """Reduce every failing (form,pos,cfg,path,value) towards the base configuration and the
-    shortest failing value (all reductions stay inside the enumerated, deletion-closed space and
-    are looked up in the set of observed failures - nothing is re-run), then key the violation by
-    the reduced case: <form>[@pos][@E0]:<path|all>:<char classes of minimal value>:<signature>."""
+    """Reduce every failing (form,pos,cfg,path,value) to the shortest failing sub-sequence of the
+    value, preferring the base position / configuration (all candidates are inside the enumerated,
+    deletion-closed space and are looked up in the set of observed failures - nothing is re-run),
+    then key the violation by the reduced case:
+    <form>[@pos][@E0]:<path|all>:<char classes of minimal value>:<signature of the minimal case>."""
     idx = {}
     for f in fails:
-        idx[(f["form"], f["pos"], f["e1"], f["path"], f["v"])] = f
+        for path, sig in f["bad"].items():
+            idx[(f["form"], f["pos"], f["e1"], path, f["v"])] = (f, sig)
     keyed = {}
-    for f in fails:
-        form, pos, e1, path, v = f["form"], f["pos"], f["e1"], f["path"], f["v"]
-        if not e1 and (form, pos, True, path, v) in idx:
-            e1 = True
-        if pos != "mid" and (form, "mid", e1, path, v) in idx:
-            pos = "mid"
-        changed = True
-        while changed:
-            changed = False
-            for w in _deletions(v):
-                if (form, pos, e1, path, w) in idx:
-                    v = w
-                    changed = True
-                    break
-        m = idx[(form, pos, e1, path, v)]
-        ran = m.get("ran") or sorted(m["obs"])
-        failing_paths = [p for p in ran if (form, pos, e1, p, v) in idx and idx[(form, pos, e1, p, v)]["sig"] == m["sig"]]
-        ppart = "all" if len(failing_paths) == len(ran) and len(ran) > 1 else path
-        fk = form + ("" if pos == "mid" else "@" + pos) + ("" if e1 else "@E0")
-        key = f"{fk}:{ppart}:{classes_of(v)}:{m['sig']}"
+    subs_cache = {}
+    for (form, pos, e1, path, v), (f, _sig) in idx.items():
+        # candidates: every sub-sequence of the value (the space is closed under deletion), at the
+        # same or the base position / configuration, that failed on the same form and path
+        if v not in subs_cache:
+            subs_cache[v] = sorted(_subsequences(v), key=_order_key)
+        best = None
+        for w in subs_cache[v]:
+            if best is not None and len(w) > len(best[2]):
+                break
+            for pos2 in dict.fromkeys(("mid", pos)):
+                for e2 in dict.fromkeys((True, e1)):
+                    if (form, pos2, e2, path, w) in idx:
+                        cand = (pos2, e2, w)
+                        rank = (len(w), pos2 != "mid", not e2, _order_key(w))
+                        if best is None or rank < best_rank:
+                            best, best_rank = cand, rank
+        pos, e1, v = best
+        m, sig = idx[(form, pos, e1, path, v)]
+        ran = m["ran"]
+        same = [p for p in ran if m["bad"].get(p) == sig]
+        ppart = "all" if len(same) == len(ran) and len(ran) > 1 else path
+        fk = FAMILY.get(form, form) + ("" if pos == "mid" else "@" + pos) + ("" if e1 else "@E0")
+        key = f"{fk}:{ppart}:{classes_of(v)}:{sig}"
         case_id = (f["form"], f["pos"], f["e1"], f["v"])
         keyed.setdefault((key, case_id), (f, v))
     return keyed
@@ -637,7 +689,7 @@ def run(ctx):
     for p in PROBES:
         _PROBE_SET |= _subsequences(p)
     ctx.log(f"{len(values)} values (len<={maxlen} over {len(ALPHABET)} characters + probe closure) x {len(FORMS)} forms")
-    res = common.pmap(_check_value, values, ctx.jobs, chunk=8, init=_init_worker, seed=ctx.seed)
+    res = common.pmap(_check_value, values, ctx.jobs, chunk=1, init=_init_worker, seed=ctx.seed)
     fails = [f for r in res for f in r["fails"]]
     evals = sum(r["evals"] for r in res)
     cases = sum(r["cases"] for r in res)
@@ -646,18 +698,19 @@ def run(ctx):
         if r["cases"] and any(not (c.isascii() and c.isalnum()) for c in v):
             nontrivial += 1
     keyed = attribute(fails)
-    order = sorted(keyed, key=lambda kc: (kc[0], _order_key(kc[1][3]), kc[1][0], kc[1][1], kc[1][2]))
+    # simplest case first per key (the first one becomes the artefact): short value, base position, default config
+    order = sorted(keyed, key=lambda kc: (kc[0], len(kc[1][3]), kc[1][1] != "mid", not kc[1][2], _order_key(kc[1][3]), FORMS.index(kc[1][0]), kc[1][1]))
     for key, case_id in order:
         f, minimal = keyed[(key, case_id)]
         ctx.violation(
             key=key,
             clause="argv delivered == argv written",
-            case={"form": f["form"], "pos": f["pos"], "expand_env_vars": f["e1"], "value": f["v"], "paths": f.get("ran") or sorted(f["obs"]), "source": f["src"], "minimal_value": minimal},
+            case={"form": f["form"], "pos": f["pos"], "expand_env_vars": f["e1"], "value": f["v"], "paths": f["ran"], "failing_paths": f["bad"], "source": f["src"], "minimal_value": minimal},
             observed=f["obs"],
             expected=f["exp"],
             note="expected = list of arguments, each with the set of values the documentation allows",
         )
-    ctx.log(f"{cases} cases, {evals} executions, {len(fails)} failing (path,case) pairs -> {len({k for k, _ in keyed})} keys")
+    ctx.log(f"{cases} cases, {evals} executions, {len(fails)} failing cases -> {len({k for k, _ in keyed})} keys")
     # evidence samples: a deterministic handful of real cases, re-run here
     _init_worker()
     pool = [v for v in values if len(v) == maxlen]
@@ -665,21 +718,34 @@ def run(ctx):
         for form in ("dq", "gluepre"):
             r = run_case(form, "mid", True, v, ("u",))
             if r:
-                ctx.sample({"form": form, "source": r["src"].replace("CMD", "recu"), "observed": r["obs"]["u"], "expected": exp_json(r["exp"])})
+                ctx.sample({"form": form, "source": r["src"].replace("CMD", "recu"), "observed": _scrub(r["obs"]["u"]), "expected": exp_json(r["exp"])})
+    by_path = {p: sum(r["by_path"][p] for r in res) for p in PATHS}
+    by_kind = {k: sum(r["by_kind"][k] for r in res) for k in ("mid", "E0", "pos")}
+    if ctx.thorough:
+        plan_txt = "length<=2 and probes: middle position on all three delivery paths, $EXPAND_ENV_VARS=False and the 4 other positions on the unthreaded alias (all three paths for length<=1 and the probes); length 3: middle position on the unthreaded alias, plus $EXPAND_ENV_VARS=False when the value contains $ or ~"
+    else:
+        plan_txt = "middle position on the unthreaded alias for every value; length<=1 and the probes also on the threaded alias and the real child, with $EXPAND_ENV_VARS=False and in the 4 other positions (redirect/capture positions on all three paths for length<=1); length-2 values containing $ or ~ also with $EXPAND_ENV_VARS=False"
     ctx.coverage.update(
         evaluations=evals,
         distinct_nontrivial=nontrivial,
-        rule=f"every string of length <= {maxlen} over the {len(ALPHABET)}-character alphabet (blank, tab, newline, quotes, backslash, $ ~ * ? [ ] {{ }} ( ) & | ; < > ! # = - , @, non-ASCII, astral) plus the deletion-closure of {len(PROBES)} longer probes; each written in every applicable form of {list(FORMS)}; middle position on threaded+unthreaded alias (and a real child for length<=2), all 5 positions and $EXPAND_ENV_VARS=False for length<=2; non-trivial = values containing at least one non-alphanumeric character that reached the argv comparison in at least one form",
+        rule=f"every string of length <= {maxlen} over the {len(ALPHABET)}-character alphabet (a, blank, tab, newline, both quotes, backslash, $ ~ * ? [ ] {{ }} ( ) & | ; < > ! # = - , @, e-acute, an astral emoji) plus the deletion-closure of the {len(PROBES)} longer probes {PROBES}; each value written in every applicable form of {list(FORMS)} and executed through Execer.exec; {plan_txt}; any case failing on the paths planned is re-run on the remaining delivery paths; non-trivial = values containing at least one non-alphanumeric character that reached the argv comparison in at least one form",
         exhaustive=True,
         values=len(values),
         max_value_length=maxlen,
         cases=cases,
+        cases_middle_position=by_kind["mid"],
+        cases_expand_env_vars_false=by_kind["E0"],
+        cases_other_positions=by_kind["pos"],
+        executions_threaded_alias=by_path["t"],
+        executions_unthreaded_alias=by_path["u"],
+        executions_real_child=by_path["c"],
         forms=len(FORMS),
-        failing_path_cases=len(fails),
+        failing_cases=len(fails),
+        distinct_keys=len({k for k, _ in keyed}),
     )
     ctx.assumptions += [
         "argument values without NUL and without lone surrogates; alphabet of 30 characters (every ASCII shell/Python metacharacter class has one representative) - longer values only through the probes",
-        "the real child is /bin/sh (dash) running `printf '%s\\0' \"$#\" \"$@\"`; it is run for values of length <= 2 and the probes",
+        "the real child is a /bin/sh (dash) script running `printf '%s\\0' \"$#\" \"$@\"` found through $PATH; it is run for the short values stated in the rule and for every case that fails on an alias path",
         "Linux, UTF-8 locale, $XONSH_SUBPROC_ARG_EXPANDUSER=True, $HOME identical in os.environ and the xonsh environment",
         "where the documentation is silent (${NAME}, ~ after = or :, order of f-string formatting and substitution) every reading is accepted",
     ]
@@ -690,6 +756,7 @@ def replay(rec):
     case = rec["case"]
     for p in PROBES:
         _PROBE_SET |= _subsequences(p)
+    tables.ensure_tables()
     _init_worker()
     r = run_case(case["form"], case["pos"], case["expand_env_vars"], case["value"], tuple(case["paths"]))
     if r is None:
